@@ -186,13 +186,18 @@ package keeper
 //@ ghost delValN int
 //@ ghost lastDelVal Bytes
 //@ func (Keeper).DeleteValidator
-//@   trusted call event only: records the address whose record is deleted (KV-store effect not modelled)
-//@   modifies delValN, lastDelVal
-//@   ensures delValN == old(delValN) + 1 && lastDelVal == bytes(addr)
+//@   trusted call event: records the address whose record is deleted; the node's signing info is deleted with it (DeleteValidatorSigningInfo)
+//@   modifies delValN, lastDelVal, siHas
+//@   ensures delValN == old(delValN) + 1 && lastDelVal == bytes(addr) && siHas == old(siHas)[bytes(addr) := false]
 //@ func (Keeper).SetStakedValidatorByChains
 //@   trusted KV-store effect only (index maintenance, see C21): no Go object visible to the caller is modified
+// resetting the signing info keeps an existing record's jail period; a MISSING record is
+// recreated with the zero time as JailedUntil
 //@ func (Keeper).ResetValidatorSigningInfo
-//@   trusted KV-store effect only: no Go object visible to the caller is modified
+//@   props C25,C12
+//@   modifies siSetN, lastSetSI, lastSetSIAddr, siHas, siJailedUntil, siMissed, siIndex
+//@   ensures [exists-afterwards] siHas[bytes(addr)]
+//@   ensures [jail-period-kept-when-present] old(siHas[bytes(addr)]) ==> siJailedUntil[bytes(addr)] == old(siJailedUntil[bytes(addr)])
 // ---- C19: pool movements (bank operations through the AuthKeeper interface are call events) ----
 //@ func (Keeper).coinsFromUnstakedToStaked
 //@   props C19,C12
@@ -205,7 +210,7 @@ package keeper
 // time; the stake is the larger of current and requested; output address / delegators follow
 // the feature flags; chains and service URL are taken from the message.
 //@ func (Keeper).EditStakeValidator
-//@   props C23,C19,C12
+//@   props C23,C19,C12,C25
 //@   modifies all
 //@   ensures [identity] result == nil ==> lastSetVal.Address == currentValidator.Address && lastSetVal.PublicKey == currentValidator.PublicKey && lastSetVal.Jailed == currentValidator.Jailed && lastSetVal.Status == currentValidator.Status && lastSetVal.UnstakingCompletionTime == currentValidator.UnstakingCompletionTime
 //@   ensures [stake] result == nil ==> lastSetValStake == max(old(bigv[currentValidator.StakedTokens.i]), old(bigv[amount.i]))
@@ -214,6 +219,7 @@ package keeper
 //@   ensures [delegators-kept] result == nil && !((featAt("NCUST", ctxHeight(ctx)) || tm3()) && (featAt("RewardDelegators", ctxHeight(ctx)) || tm3())) ==> lastSetVal.RewardDelegators == currentValidator.RewardDelegators
 //@   ensures [bump-to-pool] result == nil && old(bigv[amount.i]) > old(bigv[currentValidator.StakedTokens.i]) ==> bankA2MN == old(bankA2MN) + 1 && bankA2MFrom == pkAddr(signer) && singleAmt(bankA2MCoins) == old(bigv[amount.i]) - old(bigv[currentValidator.StakedTokens.i])
 //@   ensures [no-bump-no-coins] result == nil && old(bigv[amount.i]) <= old(bigv[currentValidator.StakedTokens.i]) ==> bankA2MN == old(bankA2MN)
+//@   ensures [jail-period-kept] result == nil && old(siHas[bytes(currentValidator.Address)]) ==> siHas[bytes(currentValidator.Address)] && siJailedUntil[bytes(currentValidator.Address)] == old(siJailedUntil[bytes(currentValidator.Address)])
 //@   ensures [no-outflow] bankSendN == old(bankSendN) && bankBurnN == old(bankBurnN)
 
 // ---- C25 / C12: unjailing --------------------------------------------------------------------
@@ -528,9 +534,10 @@ package keeper
 //@ ghost lastSetSI x/nodes/types.ValidatorSigningInfo
 //@ ghost lastSetSIAddr Bytes
 //@ func (Keeper).SetValidatorSigningInfo
-//@   trusted call event only: records the signing info written (store + codec not modelled)
-//@   modifies siSetN, lastSetSI, lastSetSIAddr
+//@   trusted call event + ghost record update: the signing info stored for the address is the one written (store + codec not modelled)
+//@   modifies siSetN, lastSetSI, lastSetSIAddr, siHas, siJailedUntil, siMissed, siIndex
 //@   ensures siSetN == old(siSetN) + 1 && lastSetSI == info && lastSetSIAddr == bytes(addr)
+//@   ensures siHas == old(siHas)[bytes(addr) := true] && siJailedUntil == old(siJailedUntil)[bytes(addr) := unixNano(info.JailedUntil)] && siMissed == old(siMissed)[bytes(addr) := info.MissedBlocksCounter] && siIndex == old(siIndex)[bytes(addr) := info.Index]
 //@ func (Keeper).valMissedAt
 //@   trusted store read of the missed-block bit array: a function of the state
 //@   pure_fn
